@@ -59,6 +59,7 @@ def build(tier, seed):
             cases.append({'kind': 'root', 'fam': fam, 'lay': lay})
     cases.append({'kind': 'root-vector'})
     cases.append({'kind': 'root-zero'})
+    cases.append({'kind': 'root-far-guess'})
     # call history: functions that share their code object (closures from one factory, a lambda in a loop) called one after
     # the other in every order -- a result must depend on the function passed, not on what was passed before
     for order in itertools.permutations(range(3)):
@@ -88,9 +89,35 @@ def run_case(case):
             run_quad_factory(pe, acc, case)
         elif case['kind'] == 'quad-weight':
             run_quad_weight(pe, acc, case)
+        elif case['kind'] == 'root-far-guess':
+            run_root_far_guess(pe, acc, case)
         else:
             run_quad(pe, acc, case)
     return acc
+
+
+def run_root_far_guess(pe, acc, case):
+    """exp(-x) = d with a very small d (root near 20.7) from guesses on the flat side of the function: what comes back is a root
+    (f(x, d) = 0 at the central values, fluctuations of the inverse function) - or the request is refused."""
+    a_ = anp()
+    for lay in ('single', 'purecov'):
+        d = D_LAYOUTS[lay](pe, ('c09far', lay), 1.0) * 1e-9
+        rd = compare.to_ref(d)
+        xv = -math.log(rd['value'])
+        exp = ref.r_propagate(xv, [-1.0 / rd['value']], [rd])
+        for g in (1.0, 19.0, 22.0, 25.0, 30.0):
+            sub = dict(case, lay=lay, guess=g)
+            try:
+                x = pe.roots.find_root(d, lambda x, dd: a_.exp(-x) - dd, guess=g)
+            except Exception:
+                acc.ok(('rootfar', lay, g), True, 'root-refused')
+                continue
+            bad = ref.close(exp, compare.to_ref(x), 1e-6)
+            if bad:
+                acc.fail('root:not-a-root:guess=%g' % g, sub, 'exp(-x) = d with d = %.3g from guess %g: returned %r, f(x, d) = %.3g (the root is %.6f): %s' % (rd['value'], g, x.value, math.exp(-x.value) - rd['value'], xv, bad))
+            else:
+                acc.ok(('rootfar', lay, g), True, 'root')
+    acc.sample(dict(case, guesses=[1.0, 19.0, 22.0, 25.0, 30.0]))
 
 
 def run_root(pe, acc, case):
